@@ -26,7 +26,7 @@ class C03(Check):
     ASSUMPTIONS = ['appended pair keys are not table names or "symbols" (documented skip); timestamps in the "# Appended by" '
                    'comment are never compared (parsed content and byte prefixes only)',
                    'the audit hook sees every open() made through the io layer (builtin open / io.open)']
-    REQUIRED_COUNTERS = ('appends_ok', 'refusals_write_over', 'refusals_append_missing', 'append_empty', 'write_copy',
+    REQUIRED_COUNTERS = ('unsized_char_histories', 'appends_ok', 'refusals_write_over', 'refusals_append_missing', 'append_empty', 'write_copy',
                          'rereads_raw', 'prefix_checks', 'audit_open_events', 'lowercase_key_appends', 'array_form_appends')
 
     def setup(self):
@@ -46,13 +46,13 @@ class C03(Check):
 
     def budget(self, tier):
         k = 1 if tier == 'quick' else 30
-        return {'histories': 500 * k, 'raw_histories': 150 * k, 'zero_row_start': 100 * k}
+        return {'histories': 500 * k, 'raw_histories': 150 * k, 'zero_row_start': 100 * k, 'unsized_char_start': 200 * k}
 
     # ------------------------------------------------------------------ gen
     def gen(self, cls, rng, i):
         ntab = rng.choice([1, 1, 2, 3])
         enums = {}
-        if rng.random() < 0.3:
+        if rng.random() < 0.3 and cls != 'unsized_char_start':
             enums['STATE_T'] = ['OK', 'FAILED', 'UNKNOWN7']
         names = []
         while len(names) < ntab:
@@ -79,6 +79,19 @@ class C03(Check):
                 if c['kind'] != 'enum' and c['name'] in en:
                     c['name'] += '_n'
 
+        if cls == 'unsized_char_start':
+            # the start file is written by the harness with 'char name[];' columns: their width is the longest value
+            # currently in the table, so appended longer strings must widen the object's column too
+            for t in tables:
+                sc = [c for c in t['cols'] if c['kind'] == 'S' and not c['alen']]
+                if not sc:
+                    t['cols'].append({'name': 'note', 'kind': 'S', 'width': 3, 'alen': 0})
+                    sc = [t['cols'][-1]]
+                for c in sc:
+                    if c is sc[0] or rng.random() < 0.6:
+                        c['unsized'] = True
+                        c['width'] = 3
+
         def mkrows(t, n):
             rows = []
             for _ in range(n):
@@ -91,7 +104,14 @@ class C03(Check):
             return rows
         for t in tables:
             n0 = 0 if (cls == 'zero_row_start' and rng.random() < 0.7) else rng.randint(0, 3)
+            if cls == 'unsized_char_start':
+                n0 = rng.randint(1, 3)
             t['rows'] = mkrows(t, n0)
+            for ci, c in enumerate(t['cols']):
+                if c.get('unsized'):
+                    if not t['rows'][0][ci].strip():
+                        t['rows'][0][ci] = 'ab'
+                    c['width'] = 16          # later (appended) values may be longer than anything in the start file
         hdr = [['k0', 'v0', 'str']] if rng.random() < 0.7 else []
         ops = []
         nkeys = 0
@@ -147,8 +167,45 @@ class C03(Check):
             return x
         return [one(x) for x in cell] if col['alen'] else one(cell)
 
+    @staticmethod
+    def _quote(x):
+        return '"%s"' % x if (x == '' or any(ch in x for ch in ' \t#')) else x
+
+    def _render_start(self, start):
+        ctype = {'i2': 'short', 'i4': 'int', 'i8': 'long', 'f4': 'float', 'f8': 'double'}
+        lines = ['#%yanny', '# start file written by the harness (unsized char columns)']
+        for k, v, vt in start['hdr']:
+            lines.append('%s %s' % (k, v))
+        for t in start['tables']:
+            lines.append('typedef struct {')
+            for c in t['cols']:
+                if c['kind'] == 'S':
+                    dims = ('[%d]' % c['alen'] if c['alen'] else '') + ('[]' if c.get('unsized') else '[%d]' % c['width'])
+                    lines.append('    char %s%s;' % (c['name'], dims))
+                else:
+                    lines.append('    %s %s%s;' % (ctype[c['kind']], c['name'], '[%d]' % c['alen'] if c['alen'] else ''))
+            lines.append('} %s;' % t['name'].upper())
+        for t in start['tables']:
+            for r in t['rows']:
+                toks = [t['name'].upper()]
+                for c, cell in zip(t['cols'], r):
+                    def one(x):
+                        if c['kind'] in ('f4', 'f8'):
+                            v = M.unfbits(x)
+                            return str(v)
+                        if c['kind'] == 'S':
+                            return self._quote(x)
+                        return str(x)
+                    toks.append('{' + ' '.join(one(x) for x in cell) + '}' if c['alen'] else one(cell))
+                lines.append(' '.join(toks))
+        return '\n'.join(lines) + '\n'
+
     def _compare_obj(self, out, y, raw, model, where):
         tabs = model['tables']
+        for t in tabs:
+            for ci, c in enumerate(t['cols']):
+                if c.get('unsized') and t['rows']:
+                    c['width'] = max(len(r[ci]) for r in t['rows'])
         up = [t['name'].upper() for t in tabs]
         out.expect(list(y.tables()) == up, 'coherence', '%s: tables %r != %r' % (where, list(y.tables()), up))
         for t in tabs:
@@ -197,7 +254,10 @@ class C03(Check):
         for tt in op.get('tables', []):
             t = model['tables'][tt['ti']]
             key = t['name'].upper() if tt['key'] == 'upper' else t['name'].lower()
-            tmp = {'cols': t['cols'], 'rows': tt['rows']}
+            ci_of = {c['name']: i for i, c in enumerate(t['cols'])}
+            cols = [dict(c, width=max([1] + [len(r[ci_of[c['name']]]) for r in tt['rows']])) if c.get('unsized') else c
+                    for c in t['cols']]
+            tmp = {'cols': cols, 'rows': tt['rows']}
             arr = M.build_array(tmp)
             if op['form'] == 'array':
                 dd[key] = arr
@@ -228,10 +288,16 @@ class C03(Check):
         for k, v, vt in start['hdr']:
             model['pairs'][k] = str(v)
         fn = os.path.join(d, 'start.par')
-        arrays = [M.build_array(t) for t in model['tables']]
-        hdr = {k: v for k, v, vt in start['hdr']} or None
-        y = Y.write_ndarray_to_yanny(fn, arrays, structnames=[t['name'] for t in model['tables']],
-                                     enums=M.writer_enums(start), hdr=hdr)
+        if case['kind'] == 'unsized_char_start':
+            with open(fn, 'w') as f:
+                f.write(self._render_start(start))
+            y = Y.yanny(fn)
+            out.count('unsized_char_histories')
+        else:
+            arrays = [M.build_array(t) for t in model['tables']]
+            hdr = {k: v for k, v, vt in start['hdr']} or None
+            y = Y.write_ndarray_to_yanny(fn, arrays, structnames=[t['name'] for t in model['tables']],
+                                         enums=M.writer_enums(start), hdr=hdr)
         raw = False
         if case['start_raw']:
             y = Y.yanny(fn, raw=True)
